@@ -207,6 +207,20 @@ impl<T> Store<T> {
     }
 }
 
+#[cfg(tokio_rs_loom_verif)]
+impl<T> Store<T> {
+    pub(super) fn verif_entries(&self) -> &[T] {
+        &self.entries
+    }
+}
+
+#[cfg(tokio_rs_loom_verif)]
+impl<T> Ref<T> {
+    pub(super) fn verif_index(&self) -> usize {
+        self.index
+    }
+}
+
 impl Store {
     pub(super) fn last_dependent_access(&self, operation: Operation) -> Option<&Access> {
         match &self.entries[operation.obj.index] {
